@@ -319,9 +319,11 @@ type notif = { n_key : n; n_val : n; n_reason : reason; n_id : n }
 type fixes = { fix_f15 : bool; fix_f16 : bool; fix_f18 : bool;
                fix_f28 : bool; fix_f33 : bool }
 
-val impl_fixes : fixes
+val no_fixes : fixes
 
 val all_fixes : fixes
+
+val impl_fixes : fixes
 
 type cfg = { c_shards : n; c_cap : n; c_ttl : n option; c_tti : n option;
              c_wheel : n; c_tick : n; c_listener : bool; c_track : bool;
